@@ -48,7 +48,7 @@ theorem parseMand_encMand : ∀ (ws : List MWire) (vals : List Bytes) (a : Bytes
           | none => simp [he] at h
           | some a' =>
             simp [he] at h; subst h
-            simp [parseMand, List.append_assoc, u8_toNat_lt hb, takeN_append rfl, ih bs a' hnr.2 he rest]
+            simp [parseMand, List.append_assoc, u8_toNat_lt hb.1, hb.2, takeN_append rfl, ih bs a' hnr.2 he rest]
         · simp at h
       | lve fx =>
         simp only [encMand] at h
@@ -59,7 +59,7 @@ theorem parseMand_encMand : ∀ (ws : List MWire) (vals : List Bytes) (a : Bytes
           | some a' =>
             simp [he] at h; subst h
             have h1 : b.length / 256 % 256 * 256 + b.length % 256 = b.length := by omega
-            simp [parseMand, be16, List.append_assoc, UInt8.toNat_ofNat', h1, takeN_append rfl, ih bs a' hnr.2 he rest]
+            simp [parseMand, be16, List.append_assoc, UInt8.toNat_ofNat', h1, hb.2, takeN_append rfl, ih bs a' hnr.2 he rest]
         · simp at h
 
 theorem parseOpts_encOpts (ws : List OWire) : ∀ (opts : List (Nat × Bytes)) (b : Bytes),
